@@ -11,6 +11,9 @@ use serde::{Deserialize, Serialize};
 pub enum BatchItem {
     T(Ty),
     Never,
+    /// the `table` primitive as it appears nested in annotations (a bare `---@type table` is a table constant instead)
+    #[serde(alias = "Table")]
+    PlainTable,
     /// a second materialisation of an earlier item of the batch (index reduced modulo position)
     Dup(u16),
 }
@@ -81,6 +84,7 @@ fn batch_texts(world: &World, batch: &[BatchItem]) -> Vec<String> {
         let s = match b {
             BatchItem::T(t) => world.render(t),
             BatchItem::Never => "never".to_string(),
+            BatchItem::PlainTable => "table[]".to_string(),
             BatchItem::Dup(r) => {
                 if i == 0 {
                     "string".to_string()
@@ -304,7 +308,15 @@ impl C16 {
         // ---------------------------------------------------------------- batch union law
         if !c.batch.is_empty() {
             let db = tyws::db(&ws);
-            let bt: Vec<LuaType> = tys[off_batch..].to_vec();
+            let mut bt: Vec<LuaType> = tys[off_batch..].to_vec();
+            for (i, b) in c.batch.iter().enumerate() {
+                // `table[]` was materialised for a PlainTable item (or a Dup of one): take the element type
+                if btexts[i] == "table[]" && matches!(b, BatchItem::PlainTable | BatchItem::Dup(_)) {
+                    if let LuaType::Array(a) = &bt[i] {
+                        bt[i] = a.get_base().clone();
+                    }
+                }
+            }
             obs.class(union_kind_class(&bt));
             let all = TypeOps::union_all(db, bt.iter().cloned());
             let mut fold = LuaType::Never;
@@ -377,7 +389,7 @@ impl Property for C16 {
         "C16"
     }
     fn rule(&self) -> String {
-        "case = generated prelude (classes with inheritance chains/diamonds and generic-instance supers, generic classes, aliases incl. multi-line literal aliases, enums) + 1..3 types from the full annotation grammar + a batch of 0..6 small types (with repeated items and `never`); judged with check_type_compact(expected, given): T accepts T (same instance and a second materialisation), `any` and `unknown` accept T, every union/optional node of T accepts each of its members, every class is accepted by each of its (transitive, generic-instance) ancestors, TypeOps::union_all(batch) == left fold of TypeOps::Union from never (canonical form, then multiset of members); the accepted pairs are also written as `---@type G` `local g` / `---@type E` `local e = g` and must not report assign-type-mismatch. non-trivial = some type has nesting depth >= 2 or mentions a class/alias".into()
+        "case = generated prelude (classes with inheritance chains/diamonds and generic-instance supers, generic classes, aliases incl. multi-line literal aliases, enums) + 1..3 types from the full annotation grammar + a batch of 0..6 small types (with repeated items, `never` and the plain `table` primitive); judged with check_type_compact(expected, given): T accepts T (same instance and a second materialisation), `any` and `unknown` accept T, every union/optional node of T accepts each of its members, every class is accepted by each of its (transitive, generic-instance) ancestors, TypeOps::union_all(batch) == left fold of TypeOps::Union from never (canonical form, then multiset of members); the accepted pairs are also written as `---@type G` `local g` / `---@type E` `local e = g` and must not report assign-type-mismatch. non-trivial = some type has nesting depth >= 2 or mentions a class/alias".into()
     }
     fn cases(&self, tier: Tier) -> u32 {
         tier.pick(30_000, 3_000_000)
@@ -390,6 +402,7 @@ impl Property for C16 {
         let item = prop_oneof![
             8 => small.prop_map(BatchItem::T),
             1 => Just(BatchItem::Never),
+            1 => Just(BatchItem::PlainTable),
             2 => any::<u16>().prop_map(BatchItem::Dup),
         ];
         (dt::world(), proptest::collection::vec(dt::ty(Profile::full()), 1..4), proptest::collection::vec(item, 0..7))
